@@ -109,6 +109,10 @@ SCENARIOS: list[tuple[str, list[list]]] = [
     ("service windows survive heartbeats",
      [["hb", ["rA"], True], ["svc", "rA"], ["adv", "us", 5], ["hb", ["rA"], True], ["hb", ["rB"], False], ["svc", "rB"], ["adv", "us", 3], ["hb", ["rA", "rB"], True],
       ["svc", "rA"], ["hb", ["rB"], True], ["hb", ["rA"], False]]),
+    ("a claim expires, is taken over, and the NEW lifetime holds",
+     [["t.claim", "run1", 1], ["t.claim", "run1", 1], ["adv", "claim", 0], ["adv", "us", 1], ["t.claim", "run1", 1], ["t.claim", "run1", 1], ["t.claim", "run2", 60],
+      ["adv", "us", 250_000], ["t.claim", "run1", 1], ["adv", "claim", -1], ["t.claim", "run1", 1], ["adv", "claim", 0], ["adv", "us", 1], ["t.claim", "run1", 60], ["t.claim", "run1", 1],
+      ["t.claim", "run2", 60], ["adv", "us", 999], ["t.claim", "run1", 1]]),
     ("purge and re-use", [*BUSY, ["result", "i0", "v1"], ["cds.put", "p", True], ["cds.put", "q", False], ["purge", "app"], ["call", "tA", "a", "d", None], ["hb", ["rA"], False],
                           ["purge", "cds"], ["cds.put", "p", True], ["purge", "orch"], ["call", "tB", "b", "x", None], ["set", "i3", "pending", "rA"]]),
 ]
